@@ -770,10 +770,19 @@ impl<T: Config> UdpProtocol<T> {
             // send an input ack
             self.send_input_ack();
 
-            // delete received inputs that are too old
+            // delete received inputs that are too old, but never the input the sender currently
+            // encodes against: as long as our acks do not reach it, it keeps using that base
             let last_recv_frame = self.last_recv_frame();
-            self.recv_inputs
-                .retain(|&k, _| k >= last_recv_frame - 2 * self.max_prediction as i32);
+            let oldest_to_keep = std::cmp::min(
+                last_recv_frame - 2 * self.max_prediction as i32,
+                body.start_frame - 1,
+            );
+            self.recv_inputs.retain(|&k, _| k >= oldest_to_keep);
+        } else if body.start_frame <= self.last_recv_frame() {
+            // The sender encodes against an input we no longer keep: its view of what we
+            // acknowledged is stale (acks were lost). Acknowledge again, otherwise it would keep
+            // retransmitting from that base forever and we could never decode its packets.
+            self.send_input_ack();
         }
     }
 
